@@ -866,6 +866,73 @@ def r9(ctx, R, funcs):
     check_immediate_results(ctx, R, "C09.R9", funcs)
 
 
+# ------------------------------------------------------------------ R10
+def r10(ctx, R):
+    """A range is meaningful only together with the document it was found in.  The
+    occurrence search answers per file; what a handler builds from it must keep
+    each span with the URI of *its* file, and an answer whose items carry no URI
+    (documentHighlight: `{range, kind}`) may only contain spans of the requested
+    document."""
+    from .c06 import searcher
+
+    R.rule("C09.R10", "occurrence ranges stay with their document: items built from the per-file search carry the URI of the file they were found in, and URI-less items (documentHighlight) are restricted to the requested file", floor=2, confirmed=3)
+    g, _hs = searcher(ctx)
+    t = dispatch_table(ctx)
+    hq = sorted(t.get("textDocument/documentHighlight", ()))
+    rq = sorted(t.get("textDocument/references", ()))
+    if not hq or not rq:
+        raise AnalysisError("references / documentHighlight handlers not found")
+    # consumers of the per-file search: `for <file>, <spans> in X.items()`
+    for f in sorted(ctx.m.funcs.values(), key=lambda x: x.qual):
+        if not any(g.qual in ctx.r.resolve_call(f, c)[1] for c in calls_in(f.node) if ctx.m.enclosing_func(c) is f):
+            continue
+        for lp in (n for n in ctx.m.walk_own(f.node) if isinstance(n, ast.For) and isinstance(n.target, ast.Tuple) and len(n.target.elts) == 2 and isinstance(n.iter, ast.Call) and isinstance(n.iter.func, ast.Attribute) and n.iter.func.attr == "items"):
+            kv, vv = n_ = lp.target.elts
+            if not (isinstance(kv, ast.Name) and isinstance(vv, ast.Name)):
+                continue
+            # items built from the spans: calls / displays inside the loop that mention elements of vv
+            uris = [c for s_ in lp.body for c in ast.walk(s_) if isinstance(c, ast.Call) and isinstance(c.func, ast.Name) and c.func.id == "path_to_uri"]
+            if not uris:
+                continue
+            k = key(f, lp)[:90]
+            if all(any(isinstance(x, ast.Name) and x.id == kv.id for x in ast.walk(c)) for c in uris):
+                R.ok("C09.R10", f.short, k, loc(f, lp), f"URI computed from the loop's own file key `{kv.id}`")
+            else:
+                bad = next(c for c in uris if not any(isinstance(x, ast.Name) and x.id == kv.id for x in ast.walk(c)))
+                R.violation("C09.R10", f.short, k, loc(f, bad), f"spans found in file `{kv.id}` are reported under `{unparse(bad)}`: ranges of one document are attributed to another")
+    # the highlight handler
+    ref = ctx.m.funcs[rq[0]]
+    for q in hq:
+        h = ctx.m.funcs[q]
+        if h is ref:
+            R.ok("C09.R10", h.short, "documentHighlight answers with the references handler's Locations (URI kept)", loc(h, h.node))
+            continue
+        # items without "uri": dict displays with a "range" key built in the handler
+        stripped = [d for d in ctx.m.walk_own(h.node) if isinstance(d, ast.Dict) and any(isinstance(k_, ast.Constant) and k_.value == "range" for k_ in d.keys) and not any(isinstance(k_, ast.Constant) and k_.value == "uri" for k_ in d.keys)]
+        multi = any((ref.qual in ctx.r.resolve_call(h, c)[1] or g.qual in ctx.r.resolve_call(h, c)[1]) for c in calls_in(h.node))
+        if not stripped:
+            R.ok("C09.R10", h.short, "documentHighlight items keep their URI", loc(h, h.node)) if multi else R.undecided("C09.R10", h.short, "documentHighlight", loc(h, h.node), "source of the highlighted ranges not recognised")
+            continue
+        for d in stripped:
+            # a filter on the item's file: a comparison that mentions the uri / path in the comprehension or an enclosing if
+            conds = []
+            p_ = ctx.m.parent.get(d)
+            while p_ is not None and p_ is not h.node:
+                if isinstance(p_, (ast.ListComp, ast.GeneratorExp)):
+                    conds += [c_ for g_ in p_.generators for c_ in g_.ifs]
+                elif isinstance(p_, ast.If):
+                    conds.append(p_.test)
+                p_ = ctx.m.parent.get(p_)
+            filtered = any(isinstance(x, ast.Compare) and any(s_ in unparse(x) for s_ in ("uri", "path", "file")) for c_ in conds for x in ast.walk(c_))
+            k = key(h, ctx.m.enclosing_stmt(d))[:90]
+            if multi and not filtered:
+                R.violation("C09.R10", h.short, k, loc(h, d), "the answer is built from occurrences found in *every* file of the workspace, with the URI dropped and no restriction to the requested document: ranges that belong to another file are reported against this one (lines that may not even exist in it)")
+            elif filtered:
+                R.ok("C09.R10", h.short, k, loc(h, d), "URI-less items restricted to the requested document")
+            else:
+                R.undecided("C09.R10", h.short, k, loc(h, d), "source of the highlighted ranges not recognised")
+
+
 def run(ctx, R):
     O = Objects(ctx)
     hs = handlers(ctx)
@@ -880,3 +947,4 @@ def run(ctx, R):
     r7(ctx, R)
     r8(ctx, R)
     r9(ctx, R, funcs)
+    r10(ctx, R)
